@@ -4,6 +4,7 @@ import (
 	"errors"
 	"github.com/emersion/go-sasl"
 	"io"
+	"strconv"
 	"time"
 )
 
@@ -480,3 +481,191 @@ func verif_C04_slow_line() {
 // verif_C04_lmtp_case: "a negative reply carries that message's own error", per
 // recipient (see verifLMTPCase in zz_verif_c13.go).
 func verif_C04_lmtp_case() { verifLMTPCase("C04") }
+
+// verifTwoMessages: two messages one after the other on ONE connection, each
+// sent with DATA, with one BDAT LAST chunk or with two chunks, and each ending
+// in its own way: accepted, refused by the backend with the message's own
+// SMTPError, over the size limit (552), or - chunked only - abandoned by RSET
+// after its first chunk, or refused by the backend at once, before it has read
+// a single octet. Every command gets exactly the reply that ITS message's
+// own course calls for: nothing of the first message's outcome (a refusal, the
+// too-large condition, an abandoned transfer's late result) shows in the
+// second's replies, and the backend reads each delivered message's own octets.
+func verifTwoMessages(prop string) {
+	verifPreemptBound(1)
+	if prop == "C20" {
+		verifHB(true)
+	}
+	lmtp := nondetBool()
+	const limit = 4
+	mode := []int{verifChoice(3), verifChoice(3)}
+	outcome := []int{verifChoice(5), verifChoice(5)}
+	for i := 0; i < 2; i++ {
+		if outcome[i] == 3 {
+			assume(mode[i] == 2)
+		}
+	}
+	ncall := 0
+	got := make([][]byte, 2)
+	be := &vbackend{}
+	which := []int{} // which message each Data call belongs to
+	be.dataFn = func(_ *vsession, r io.Reader) error {
+		idx := ncall
+		me := which[idx]
+		ncall++
+		if outcome[me] == 4 {
+			got[idx] = []byte{}
+			return &SMTPError{Code: 550 + me, EnhancedCode: EnhancedCode{5, 7, me + 1}, Message: "refused msg" + strconv.Itoa(me)}
+		}
+		// (an abandoned transfer's delivery may finish reading after the next
+		// one has started: results are filed under the call's own number)
+		b, rerr := verifReadAll(r, 3)
+		got[idx] = b
+		if rerr != io.EOF {
+			return rerr
+		}
+		if outcome[me] == 1 {
+			return &SMTPError{Code: 550 + me, EnhancedCode: EnhancedCode{5, 7, me + 1}, Message: "refused msg" + strconv.Itoa(me)}
+		}
+		return nil
+	}
+	s, lg := verifServer(be)
+	s.LMTP = lmtp
+	s.MaxMessageBytes = limit
+	hello := "EHLO c\r\n"
+	if lmtp {
+		hello = "LHLO c\r\n"
+	}
+	in := hello
+	type exp struct {
+		code int
+		text string // suffix of the first line, "" = not checked
+	}
+	want := []exp{{220, ""}, {250, ""}}
+	var wantBodies []string
+	for i := 0; i < 2; i++ {
+		body := "m" + strconv.Itoa(i) + "\r\n" // exactly the limit
+		if outcome[i] == 2 {
+			body = "m" + strconv.Itoa(i) + "xy\r\n" // two octets over
+		}
+		in += "MAIL FROM:<s" + strconv.Itoa(i) + "@v>\r\nRCPT TO:<r@v>\r\n"
+		want = append(want, exp{250, ""}, exp{250, ""})
+		fin := exp{250, ""}
+		switch outcome[i] {
+		case 1, 4:
+			fin = exp{550 + i, "5.7." + strconv.Itoa(i+1) + " refused msg" + strconv.Itoa(i)}
+			if lmtp {
+				fin.text = "5.7." + strconv.Itoa(i+1) + " <r@v> refused msg" + strconv.Itoa(i)
+			}
+		case 2:
+			fin = exp{552, ""}
+		}
+		delivered := true
+		switch mode[i] {
+		case 0:
+			in += "DATA\r\n" + body + ".\r\n"
+			want = append(want, exp{354, ""}, fin)
+		case 1:
+			in += "BDAT " + strconv.Itoa(len(body)) + " LAST\r\n" + body
+			want = append(want, fin)
+			if outcome[i] == 2 {
+				delivered = false // refused before anything is handed over
+			}
+		case 2:
+			in += "BDAT 2\r\n" + body[:2]
+			want = append(want, exp{250, ""})
+			if outcome[i] == 3 {
+				in += "RSET\r\n"
+				want = append(want, exp{250, ""})
+			} else if outcome[i] == 4 {
+				// refused on the first chunk (not the final reply: no
+				// recipient prefix in LMTP); the LAST chunk then belongs to
+				// no transaction: refused, its octets discarded
+				want[len(want)-1] = exp{550 + i, "5.7." + strconv.Itoa(i+1) + " refused msg" + strconv.Itoa(i)}
+				in += "BDAT " + strconv.Itoa(len(body)-2) + " LAST\r\n" + body[2:]
+				want = append(want, exp{-5, ""})
+				verifReach(prop + ".two-messages-early-refusal-chunked")
+			} else {
+				in += "BDAT " + strconv.Itoa(len(body)-2) + " LAST\r\n" + body[2:]
+				want = append(want, fin)
+			}
+		}
+		if delivered {
+			which = append(which, i)
+			switch {
+			case outcome[i] == 4:
+				wantBodies = append(wantBodies, "")
+			case outcome[i] == 3:
+				wantBodies = append(wantBodies, body[:2])
+			case outcome[i] == 2 && mode[i] == 0:
+				wantBodies = append(wantBodies, body[:limit])
+			case outcome[i] == 2:
+				wantBodies = append(wantBodies, body[:2])
+			default:
+				wantBodies = append(wantBodies, body)
+			}
+		}
+	}
+	in += "NOOP\r\n"
+	want = append(want, exp{250, ""})
+	vc, _, _ := verifServe(s, []byte(in), io.EOF)
+	reps, wf := verifParseReplies(vc.out)
+	verifObserve("twomsg", lmtp, mode[0], outcome[0], mode[1], outcome[1], wf, len(reps), len(want), ncall)
+	if prop == "C20" {
+		// C20 is about races (the monitor), deadlocks (the scheduler) and
+		// goroutines left behind: what the replies say is C04's business
+		verifAssert(verifGoroutinesAlive() == 0, prop+".two-messages-no-goroutine-left")
+		verifReach(prop + ".two-messages-end")
+		return
+	}
+	if prop == "C01" {
+		// C01 is about the octets of a message sent with DATA that reaches the
+		// backend in full: each such message is read as its own octets,
+		// whatever happened to the other message on the connection
+		for idx, me := range which {
+			if outcome[me] <= 1 && mode[me] == 0 {
+				verifAssert(ncall > idx && string(got[idx]) == wantBodies[idx], prop+".two-messages-backend-reads-own-octets")
+			}
+		}
+		verifReach(prop + ".two-messages-end")
+		return
+	}
+	if prop == "C17" {
+		// C17 is about the backend's own errors: where the conversation is in
+		// step, each refusal carries its message's own code and text
+		if wf && len(reps) == len(want) {
+			for i, w := range want {
+				if w.text != "" {
+					verifAssert(reps[i].code == w.code && len(reps[i].lines) == 1 && reps[i].lines[0] == w.text, prop+".two-messages-refusal-carries-own-error")
+				}
+			}
+		}
+		verifReach(prop + ".two-messages-end")
+		return
+	}
+	verifAssert(wf && len(reps) == len(want), prop+".two-messages-one-reply-per-command")
+	if !wf || len(reps) != len(want) {
+		return
+	}
+	for i, w := range want {
+		if w.code < 0 {
+			verifAssert(reps[i].code/100 == -w.code, prop+".two-messages-each-reply-reports-its-own-message")
+			continue
+		}
+		verifAssert(reps[i].code == w.code, prop+".two-messages-each-reply-reports-its-own-message")
+		if w.text != "" {
+			verifAssert(len(reps[i].lines) == 1 && reps[i].lines[0] == w.text, prop+".two-messages-refusal-carries-own-error")
+		}
+	}
+	verifAssert(ncall == len(wantBodies), prop+".two-messages-one-data-call-per-delivered-message")
+	if ncall == len(wantBodies) {
+		for i := range wantBodies {
+			verifAssert(string(got[i]) == wantBodies[i], prop+".two-messages-backend-reads-own-octets")
+		}
+	}
+	verifAssert(lg.lines == 0, prop+".two-messages-nothing-logged")
+	verifAssert(verifGoroutinesAlive() == 0, prop+".two-messages-no-goroutine-left")
+	verifReach(prop + ".two-messages-end")
+}
+
+func verif_C04_two_messages() { verifTwoMessages("C04") }
